@@ -423,8 +423,14 @@ fn c13_case(r: &mut Rng, idx: u64, rep: &mut Reporter, cover: &mut crate::Cover)
         let same = |r: &mut Rng, d: &RecordDataType| -> (RecordValue, RecordValue) {
             match d {
                 RecordDataType::Single { .. } => {
-                    let a = (r.range(-100, 100)) as f32 / 2.0;
-                    (RecordValue::Single(a), RecordValue::Single(a + (1 + r.range(0, 400)) as f32 / 2.0))
+                    if r.bool() {
+                        // decimal fractions that no binary float holds exactly: as f32 and as f64 they differ
+                        let (a, b) = *r.pick(&[(0.1f32, 0.7f32), (-0.3, 0.3), (1e-3, 33.3), (0.2, 0.6), (-1.1, -0.1), (0.7, 1.3)]);
+                        (RecordValue::Single(a), RecordValue::Single(b))
+                    } else {
+                        let a = (r.range(-100, 100)) as f32 / 2.0;
+                        (RecordValue::Single(a), RecordValue::Single(a + (1 + r.range(0, 400)) as f32 / 2.0))
+                    }
                 }
                 RecordDataType::Double { .. } => {
                     let a = (r.range(-1000, 1000)) as f64 / 8.0;
@@ -486,6 +492,7 @@ fn c13_case(r: &mut Rng, idx: u64, rep: &mut Reporter, cover: &mut crate::Cover)
             8 => {
                 // both limits of one type that differs from the attribute's type
                 match d {
+                    RecordDataType::ScaledInteger { .. } if r.bool() => (Some(RecordValue::Integer(r.range(-5, 3))), Some(RecordValue::Integer(r.range(4, 300)))),
                     RecordDataType::Integer { .. } | RecordDataType::ScaledInteger { .. } => (Some(RecordValue::Double(0.0)), Some(RecordValue::Double(255.0))),
                     _ => (Some(RecordValue::Integer(0)), Some(RecordValue::Integer(255))),
                 }
@@ -551,6 +558,26 @@ fn c13_case(r: &mut Rng, idx: u64, rep: &mut Reporter, cover: &mut crate::Cover)
                         RecordDataType::Double { min: None, max: None } => *v = RecordValue::Double(x),
                         _ => {}
                     }
+                }
+            }
+        }
+        if limit_class == 1 {
+            // values exactly AT the limits (same type as the attribute): 0 at the minimum and 1 at the maximum are exact
+            let lims: Option<(RecordValue, RecordValue)> = match (&rec.name, &meta.intensity_limits, &meta.color_limits) {
+                (Intensity, Some(Some(l)), _) => l.intensity_min.clone().zip(l.intensity_max.clone()),
+                (ColorRed, _, Some(Some(l))) => l.red_min.clone().zip(l.red_max.clone()),
+                (ColorGreen, _, Some(Some(l))) => l.green_min.clone().zip(l.green_max.clone()),
+                (ColorBlue, _, Some(Some(l))) => l.blue_min.clone().zip(l.blue_max.clone()),
+                _ => None,
+            };
+            if let Some((a, b)) = lims {
+                let fits = |v: &RecordValue| crate::scene::point_fits(std::slice::from_ref(rec), std::slice::from_ref(v)).is_ok();
+                let open_float = matches!(d, RecordDataType::Single { min: None, max: None } | RecordDataType::Double { min: None, max: None });
+                let is_int = matches!(d, RecordDataType::Integer { .. } | RecordDataType::ScaledInteger { .. });
+                if (open_float || is_int) && fits(&a) && fits(&b) && vals.len() >= 2 {
+                    vals[0] = a;
+                    vals[1] = b;
+                    cover.hit("c13:values-exactly-at-limits");
                 }
             }
         }
